@@ -844,3 +844,213 @@ Proof.
   destruct (list_eq_dec Z.eq_dec (controls st') (controls st)) as [->|Hne]; [tauto|].
   destruct (controls_step _ _ _ _ H Hne) as (_ & e' & n & cs & -> & _). exfalso. eapply Hcw; reflexivity.
 Qed.
+
+(* ------------------------------------------------------------------------------------------ *)
+(* history theorems: induction over arbitrary operation lists, from any state with nothing pending
+   (in particular the constructor's state `init`) *)
+
+Lemma optZ_dec (a b : option Z) : {a = b} + {a <> b}.
+Proof. decide equality. apply Z.eq_dec. Qed.
+
+Lemma optZZ_dec (a b : option (Z * Z)) : {a = b} + {a <> b}.
+Proof. decide equality. decide equality; apply Z.eq_dec. Qed.
+
+Lemma step_pair st o : step st o = (fst (step st o), snd (step st o)).
+Proof. destruct (step st o); reflexivity. Qed.
+
+(* -- owner -- *)
+(* a pending owner was put there by an accepted ChangeOwnerAddress of the current owner *)
+Theorem pending_owner_origin st0 ops :
+  pending_owner st0 = None ->
+  forall p, pending_owner (run st0 ops) = Some p ->
+  exists x e0, In x (trace st0 ops) /\ ev_op x = ChangeOwner (owner (ev_pre x)) e0 p true /\
+    ev_code x = OK /\ owner (ev_pre x) = owner (run st0 ops).
+Proof.
+  intros H0. induction ops as [|o ops IH] using rev_ind; intros p Hp.
+  { cbn in Hp. congruence. }
+  rewrite run_snoc in *. rewrite trace_snoc.
+  set (st := run st0 ops) in *. pose proof (step_pair st o) as Es.
+  destruct (optZ_dec (pending_owner (fst (step st o))) (pending_owner st)) as [Heq|Hne].
+  - rewrite Heq in Hp. destruct (IH _ Hp) as (x & e0 & Hin & Hop & Hc & Ho).
+    exists x, e0. repeat split; auto; [apply in_or_app; left; assumption|].
+    destruct (Z.eq_dec (owner (fst (step st o))) (owner st)) as [->|Hno]; [assumption|].
+    destruct (owner_step _ _ _ _ Es Hno) as (_ & e & _ & _ & Hst).
+    rewrite Hst in Heq. cbn in Heq. congruence.
+  - destruct (pending_owner_step _ _ _ _ Es Hne) as (Hc & [(e & new & Ho & Hown & Hp')|(e & _ & _ & _ & Hp')]);
+      [|congruence].
+    rewrite Hp in Hp'. destruct (new =? owner st); [discriminate|]. injection Hp' as Hpn.
+    rewrite Hpn.
+    eexists {| ev_pre := st; ev_op := o; ev_code := snd (step st o) |}, e.
+    cbn [ev_pre ev_op ev_code]. repeat split; auto. apply in_or_app; right; left; reflexivity.
+Qed.
+
+Theorem owner_changes_only_by_handshake st0 ops o :
+  pending_owner st0 = None ->
+  let st := run st0 ops in
+  let st' := fst (step st o) in
+  owner st' <> owner st ->
+  exists e, o = ChangeOwner (owner st') e (owner st') true /\ snd (step st o) = OK /\
+    pending_owner st = Some (owner st') /\
+    exists x e0, In x (trace st0 ops) /\
+      ev_op x = ChangeOwner (owner st) e0 (owner st') true /\ ev_code x = OK /\
+      owner (ev_pre x) = owner st.
+Proof.
+  intros H0 st st' Hne. pose proof (step_pair st o) as Es.
+  destruct (owner_step _ _ _ _ Es Hne) as (Hc & e & Ho & Hp & _).
+  exists e. repeat split; auto.
+  destruct (pending_owner_origin st0 ops H0 _ Hp) as (x & e0 & Hin & Hop & Hcx & Hox).
+  exists x, e0. repeat split; auto. rewrite Hop. fold st in Hox. rewrite Hox. reflexivity.
+Qed.
+
+(* -- worker -- *)
+Theorem pending_worker_origin st0 ops :
+  pending_worker st0 = None ->
+  forall n eff, pending_worker (run st0 ops) = Some (n, eff) ->
+  exists x e0 cs, In x (trace st0 ops) /\
+    ev_op x = ChangeWorker (owner (ev_pre x)) e0 (WOk n) cs /\ ev_code x = OK /\
+    eff = e0 + WORKER_KEY_CHANGE_DELAY.
+Proof.
+  intros H0. induction ops as [|o ops IH] using rev_ind; intros n eff Hp.
+  { cbn in Hp. congruence. }
+  rewrite run_snoc in *. rewrite trace_snoc.
+  set (st := run st0 ops) in *. pose proof (step_pair st o) as Es.
+  destruct (optZZ_dec (pending_worker (fst (step st o))) (pending_worker st)) as [Heq|Hne].
+  - rewrite Heq in Hp. destruct (IH _ _ Hp) as (x & e0 & cs & Hin & Hop & Hc & He).
+    exists x, e0, cs. repeat split; auto. apply in_or_app; left; assumption.
+  - destruct (pending_worker_step _ _ _ _ Es Hne)
+      as (Hc & [(n' & eff' & _ & Hp' & _)|(_ & e & n' & cs & Ho & _ & Hp' & _)]); [congruence|].
+    rewrite Hp in Hp'. injection Hp' as Hn1 Hn2. rewrite Hn1, Hn2.
+    eexists {| ev_pre := st; ev_op := o; ev_code := snd (step st o) |}, e, cs.
+    cbn [ev_pre ev_op ev_code]. repeat split; auto. apply in_or_app; right; left; reflexivity.
+Qed.
+
+Theorem worker_delay st0 ops o :
+  pending_worker st0 = None ->
+  let st := run st0 ops in
+  let st' := fst (step st o) in
+  worker st' <> worker st ->
+  exists x e0 cs, In x (trace st0 ops) /\
+    ev_op x = ChangeWorker (owner (ev_pre x)) e0 (WOk (worker st')) cs /\ ev_code x = OK /\
+    e0 + WORKER_KEY_CHANGE_DELAY <= epoch_of o /\
+    ((exists e, o = ConfirmWorker (owner st) e) \/ (exists e, o = Cron e)).
+Proof.
+  intros H0 st st' Hne. pose proof (step_pair st o) as Es.
+  destruct (worker_step _ _ _ _ Es Hne) as (_ & eff & Hp & Hle & _ & _ & Hby).
+  destruct (pending_worker_origin st0 ops H0 _ _ Hp) as (x & e0 & cs & Hin & Hop & Hc & ->).
+  exists x, e0, cs. repeat split; auto.
+Qed.
+
+(* -- beneficiary -- *)
+Definition approval (who nb q x : Z) (y : ev) : Prop :=
+  exists e, ev_op y = ChangeBeneficiary who e (Some nb) q x /\ ev_code y = OK.
+
+Definition approved_in (who nb q x : Z) (l : list ev) : Prop :=
+  exists y, In y l /\ approval who nb q x y.
+
+Lemma approved_in_snoc who nb q x l y : approved_in who nb q x l -> approved_in who nb q x (l ++ [y]).
+Proof. intros (z & Hin & Ha). exists z. split; [apply in_or_app; left|]; assumption. Qed.
+
+Lemma approved_in_last who nb q x l y : approval who nb q x y -> approved_in who nb q x (l ++ [y]).
+Proof. intros Ha. exists y. split; [apply in_or_app; right; left; reflexivity|assumption]. Qed.
+
+(* the proposal `pt` pending now was made by the owner (who still is the owner) while the
+   beneficiary was the current one; every approval flag it carries is backed by an accepted call of
+   the respective party made since, or (beneficiary side) by an exhausted/expired term at proposal
+   time *)
+Definition backed (st0 : state) (ops : list op) (st : state) (nb q x : Z) (by_ben by_nom : Prop) : Prop :=
+  exists tr1 xp mid ep, trace st0 ops = tr1 ++ xp :: mid /\
+    ev_op xp = ChangeBeneficiary (owner st) ep (Some nb) q x /\ ev_code xp = OK /\
+    owner (ev_pre xp) = owner st /\ beneficiary (ev_pre xp) = beneficiary st /\
+    (by_ben -> available (bterm (ev_pre xp)) ep = 0 \/ approved_in (beneficiary st) nb q x (xp :: mid)) /\
+    (by_nom -> approved_in nb nb q x (xp :: mid)).
+
+Theorem pending_term_backed st0 ops :
+  pending_term st0 = None ->
+  forall pt, pending_term (run st0 ops) = Some pt ->
+  backed st0 ops (run st0 ops) (pb_new pt) (pb_quota pt) (pb_exp pt)
+         (pb_by_ben pt = true) (pb_by_nom pt = true).
+Proof.
+  intros H0. unfold backed. induction ops as [|o ops IH] using rev_ind; intros pt' Hp.
+  { cbn in Hp. congruence. }
+  rewrite run_snoc in *. rewrite trace_snoc.
+  set (st := run st0 ops) in *. pose proof (step_pair st o) as Es.
+  set (y := {| ev_pre := st; ev_op := o; ev_code := snd (step st o) |}).
+  destruct (pending_term_origin _ _ _ _ _ Es Hp) as (Ho & Hb & [Hsame|(Hc & c & e & Hop & Hcase)]).
+  - destruct (IH _ Hsame) as (tr1 & xp & mid & ep & Htr & Hxp & Hcx & Hox & Hbx & Hben & Hnom).
+    exists tr1, xp, (mid ++ [y]), ep. rewrite Htr, Ho, Hb. rewrite <- app_assoc. cbn [app].
+    repeat split; auto.
+    + intros Hf. destruct (Hben Hf) as [|Ha]; [left; assumption|right].
+      apply (approved_in_snoc _ _ _ _ (xp :: mid)). assumption.
+    + intros Hf. apply (approved_in_snoc _ _ _ _ (xp :: mid)). auto.
+  - assert (approval c (pb_new pt') (pb_quota pt') (pb_exp pt') y) as Hy.
+    { exists e. split; assumption. }
+    destruct Hcase as [(-> & Hbb & Hbn)|(Hco & Hcc & pt & Hpt & Hext & Hbb & Hbn)].
+    + exists (trace st0 ops), y, [], e. rewrite Ho, Hb. cbn [ev_pre ev_op ev_code y].
+      repeat split; auto.
+      * intros Hf. rewrite Hf in Hbb. symmetry in Hbb. apply orb_true_iff in Hbb as [Hz|Hz]; zb.
+        -- left. assumption.
+        -- right. exists y. split; [left; reflexivity|]. rewrite <- Hz. assumption.
+      * intros Hf. rewrite Hf in Hbn. symmetry in Hbn. zb.
+        exists y. split; [left; reflexivity|]. rewrite <- Hbn at 1. assumption.
+    + destruct Hext as (En & Eq & Ex & _ & _).
+      destruct (IH _ Hpt) as (tr1 & xp & mid & ep & Htr & Hxp & Hcx & Hox & Hbx & Hben & Hnom).
+      rewrite <- En, <- Eq, <- Ex in *.
+      exists tr1, xp, (mid ++ [y]), ep. rewrite Htr, Ho, Hb. rewrite <- app_assoc. cbn [app].
+      repeat split; auto.
+      * intros Hf. rewrite Hf in Hbb. symmetry in Hbb. apply orb_true_iff in Hbb as [Hz|Hz].
+        -- destruct (Hben Hz) as [|Ha]; [left; assumption|right].
+           apply (approved_in_snoc _ _ _ _ (xp :: mid)). assumption.
+        -- zb. right. apply (approved_in_last _ _ _ _ (xp :: mid)). rewrite <- Hz. assumption.
+      * intros Hf. rewrite Hf in Hbn. symmetry in Hbn. apply orb_true_iff in Hbn as [Hz|Hz].
+        -- apply (approved_in_snoc _ _ _ _ (xp :: mid)). auto.
+        -- zb. apply (approved_in_last _ _ _ _ (xp :: mid)). rewrite <- Hz at 1. assumption.
+Qed.
+
+Theorem beneficiary_two_sided st0 ops o :
+  pending_term st0 = None ->
+  let st := run st0 ops in
+  let st' := fst (step st o) in
+  beneficiary st' <> beneficiary st ->
+  (* (a) the beneficiary was the owner and followed the owner handshake *)
+  (owner st' <> owner st /\ beneficiary st = owner st /\ beneficiary st' = owner st') \/
+  (* (b) a proposal of the owner, approved by the nominee and by the current beneficiary (or the
+         current term had nothing available when it was proposed) *)
+  (exists c e q x, o = ChangeBeneficiary c e (Some (beneficiary st')) q x /\ snd (step st o) = OK /\
+     quota (bterm st') = q /\ expiration (bterm st') = x /\ used (bterm st') = 0 /\
+     backed st0 (ops ++ [o]) st (beneficiary st') q x True True).
+Proof.
+  intros H0 st st' Hne. pose proof (step_pair st o) as Es.
+  destruct (beneficiary_step _ _ _ _ Es Hne)
+    as (Hc & [?|(c & e & q & x & pt & Ho & Hcb & [Hb1 Hb2] & Hterm & _ & Hown)]); [left; assumption|].
+  right. exists c, e, q, x. unfold st'. rewrite Hterm. cbn [quota used expiration].
+  repeat split; auto.
+  unfold backed. rewrite trace_snoc. fold st.
+  set (y := {| ev_pre := st; ev_op := o; ev_code := snd (step st o) |}).
+  assert (approval c (beneficiary st') q x y) as Hy by (exists e; split; assumption).
+  destruct (cb_pending_inr _ _ _ _ _ _ _ Hcb)
+    as (En & Eq & Ex & [(Hco & Hbb & Hbn & _)|(Hco & Hpt & Hcc)]).
+  - exists (trace st0 ops), y, [], e. cbn [ev_pre ev_op ev_code y]. subst c.
+    repeat split; auto.
+    + intros _. destruct Hb1 as [Hz|Hz].
+      * rewrite Hbb in Hz. zb. left. assumption.
+      * right. exists y. split; [left; reflexivity|]. rewrite <- Hz. assumption.
+    + intros _. destruct Hb2 as [Hz|Hz]; [congruence|].
+      exists y. split; [left; reflexivity|]. rewrite <- Hz at 1. assumption.
+  - pose proof (pending_term_backed st0 ops H0 _ Hpt) as HB. unfold backed in HB.
+    destruct HB as (tr1 & xp & mid & ep & Htr & Hxp & Hcx & Hox & Hbx & Hben & Hnom).
+    fold st in Hxp, Hox, Hbx, Hben. rewrite En, Eq, Ex in *.
+    exists tr1, xp, (mid ++ [y]), ep. rewrite Htr. rewrite <- app_assoc. cbn [app].
+    repeat split; auto.
+    + intros _. destruct Hb1 as [Hz|Hz].
+      * destruct (Hben Hz) as [|Ha]; [left; assumption|right].
+        apply (approved_in_snoc _ _ _ _ (xp :: mid)). assumption.
+      * right. apply (approved_in_last _ _ _ _ (xp :: mid)). rewrite <- Hz. assumption.
+    + intros _. destruct Hb2 as [Hz|Hz].
+      * apply (approved_in_snoc _ _ _ _ (xp :: mid)). auto.
+      * apply (approved_in_last _ _ _ _ (xp :: mid)). rewrite <- Hz at 1. assumption.
+Qed.
+
+Lemma init_fresh o w cs bal :
+  pending_owner (init o w cs bal) = None /\ pending_worker (init o w cs bal) = None /\
+  pending_term (init o w cs bal) = None.
+Proof. repeat split. Qed.
